@@ -64,6 +64,10 @@ ParseClauses(T) ==
        \cup (IF canwrite /\ (o.dump.status # "ok" \/ o.dump.b # enc.b) THEN {"dump"} ELSE {})
        \cup (IF canwrite /\ o.dump.status = "ok"
                 /\ (Len(o.dump.b) # r.pos - T.start \/ o.dump.b # AndBytes(window, enc.k)) THEN {"fidelity"} ELSE {})
+       \* a partial trailing element of x[EOF]: an error, or the whole elements - but then what was consumed is what is dumped
+       \* (C02); a reader that swallows the partial element and returns a value consumed more than it can give back (seed S111)
+       \cup (IF bothok /\ "laxeof" \in r.fl /\ Writable(T.type, T.mode) /\ o.dump.status = "ok" /\ Len(o.dump.b) # o.pos - T.start
+             THEN {"fidelity"} ELSE {})
        \* write() reports the number of bytes it produced (and produces what dumps() does)
        \cup (IF canwrite /\ o.dump.status = "ok" /\ Has(o.dump, "wcount") /\ o.dump.wcount # Len(o.dump.b) THEN {"write-count"} ELSE {})
        \cup (IF canwrite /\ enc.b # AndBytes(window, enc.k) THEN {"SPECBUG:fidelity-theorem"} ELSE {})
